@@ -4,7 +4,8 @@ For every /tmp/seed_out/Cxx/patch_n.diff: the existing suite passes with the cha
 passes without it.  (Running the checks against the change is done separately with tools/mutant.sh.)"""
 import json, os, shutil, subprocess, sys
 
-OUT = "/tmp/seed_out"
+OUT = sys.argv[1] if len(sys.argv) > 1 else "/tmp/seed_out"
+OFFSET = int(sys.argv[2]) if len(sys.argv) > 2 else 0
 DESELECT = "tests/test_instrument.py::TestNoteEvent::TestEndTick::test_wrapper"
 
 def sh(cmd, cwd):
@@ -34,18 +35,18 @@ for pid in sorted(os.listdir(OUT)):
                                       demo_changed_tail=outd.strip().splitlines()[-1][:300] if outd.strip() else "")
         print(pid, n, "CONFIRMED" if ok else "REJECTED", res["%s_%d" % (pid, n)]["tests"], rc0, rcd, flush=True)
         if ok:
-            dst = "/verif/seeded/%s_%d" % (pid, n)
+            dst = "/verif/seeded/%s_%d" % (pid, n + OFFSET)
             os.makedirs(dst, exist_ok=True)
             shutil.copy(patch, os.path.join(dst, "patch.diff"))
             shutil.copy(demo, os.path.join(dst, "demo.py"))
             notes = open(os.path.join(d, "notes.md")).read() if os.path.exists(os.path.join(d, "notes.md")) else ""
             open(os.path.join(dst, "notes.md"), "w").write(notes)
-            meta = dict(property=pid, seed=n, breaks=pid,
+            meta = dict(property=pid, seed=n + OFFSET, breaks=pid,
                         needs_to_manifest="see notes.md (section for change %d)" % n,
                         confirmed=dict(
                             worktree="scratch git worktree of /repo HEAD under /tmp/wt/%s (removed afterwards)" % pid,
                             suite="cd <worktree> && /venv/bin/python -m pytest -q -p no:cacheprovider --timeout=900 --deselect %s  -> %s" % (DESELECT, res["%s_%d" % (pid, n)]["tests"]),
                             demo_without_change="exit %d" % rc0, demo_with_change="exit %d: %s" % (rcd, res["%s_%d" % (pid, n)]["demo_changed_tail"])),
-                        checks_run="tools/mutant.sh seeded/%s_%d/patch.diff %s (see DESIGN.md section 11 for the outcome)" % (pid, n, pid))
+                        checks_run="tools/mutant.sh seeded/%s_%d/patch.diff %s (see DESIGN.md section 11 for the outcome)" % (pid, n + OFFSET, pid))
             json.dump(meta, open(os.path.join(dst, "meta.json"), "w"), indent=1)
-json.dump(res, open("/verif/work/confirm_seeds.json", "w"), indent=1)
+json.dump(res, open("/verif/work/confirm_seeds_%d.json" % OFFSET, "w"), indent=1)
